@@ -79,6 +79,22 @@ func excluded(c Case, f *syntax.File) string {
 			}
 		}
 	}
+	if vh.Excluded("C05-singleline-hdoc-comments") && c.Cfg.SingleLine && ncom > 0 {
+		// SingleLine: comments that follow a here-document operator (between
+		// two here-document statements, after the body) are printed late or
+		// dropped
+		for _, it := range items {
+			cm, ok := it.Node.(*syntax.Comment)
+			if !ok {
+				continue
+			}
+			for _, r := range hdocs {
+				if cm.Hash.After(r.OpPos) {
+					return "C05-singleline-hdoc-comments"
+				}
+			}
+		}
+	}
 	if vh.Excluded("C05-comment-in-empty-body") && ncom > 0 && synex.HasEmptyCompound(f) {
 		// zsh/mksh accept empty statement lists; the parser drops a comment
 		// that is the only thing in one ("then # c" + newline + "fi")
